@@ -96,24 +96,20 @@ theorem filesTops_padEntry (n : Nat) (rest : List BVal) :
   simp [filesTops, padAttr, padEntry, RF.sub, dictGet, K.length, K.path, K.attr, RF.kPath,
     RF.kAttr, TorrentVerif.strs, sP, bind, Except.bind]
 
-theorem lookup_pad_none (t : Node) (n : Nat) (h : child t sPad = none) :
-    lookup t [sPad, natDec n] = none := by
-  simp [lookup, h]
-
 /-- the `files` list of a v1 creator over files found in the tree: well-formed for the
     specification, every listed file is on disk with its listed length, padding entries are
-    absent from the disk, and the zero-filled stream is the listed stream -/
+    never looked up on disk (whatever sits at `.pad/<n>`) and do not count among the described
+    top-level names, and the zero-filled stream is the listed stream -/
 theorem v1_list_core (t : Node) (align : Bool) (pl : Nat) (files : List (List Bytes × Bytes))
     (hfa : ∀ x ∈ files, fileAt t x.1 = some x.2) (hne : ∀ x ∈ files, x.1 ≠ [])
-    (hplain : ∀ x ∈ files, ∀ c ∈ x.1, Spec.plainName c = true)
-    (hpad : align = true → child t sPad = none) :
+    (hplain : ∀ x ∈ files, ∀ c ∈ x.1, Spec.plainName c = true) :
     ∃ recs tops, v1Items (v1Entries align pl (files.map fun x => (x.1, x.2.length))) = some recs ∧
       NotLonger (recs.map fun r => (r.2.1, v1Disk t r)) ∧
       (recs.map fun r => (r.2.1, v1Disk t r)).flatMap zeroFill
         = v1Stream align pl (files.map (·.2)) ∧
-      (∀ r ∈ recs, ∀ es, lookup t r.1 ≠ some (.dir es)) ∧
+      (∀ r ∈ recs, isPadRec r = false → ∀ es, lookup t r.1 ≠ some (.dir es)) ∧
       filesTops (v1Entries align pl (files.map fun x => (x.1, x.2.length))) = .ok tops ∧
-      (∀ x ∈ tops, (∃ y ∈ files, x = y.1.headD []) ∨ (align = true ∧ x = sPad)) := by
+      (∀ x ∈ tops, ∃ y ∈ files, x = y.1.headD []) := by
   induction files with
   | nil =>
     exact ⟨[], [], by simp [v1Entries, v1Items], by simp [NotLonger], by simp [v1Stream, Spec.alignedStream],
@@ -139,7 +135,6 @@ theorem v1_list_core (t : Node) (align : Bool) (pl : Nat) (files : List (List By
         cases align
         · simp at hcond
         · rfl
-      have hpn := hpad hal
       have hfbp : v1Disk t ([sPad, natDec (gap pl d.length)], gap pl d.length, padMark) = none := by
         simp [v1Disk, isPadRec, padMark]
       refine ⟨(p, d.length, none) :: ([sPad, natDec (gap pl d.length)], gap pl d.length, padMark) :: recs,
@@ -153,21 +148,20 @@ theorem v1_list_core (t : Node) (align : Bool) (pl : Nat) (files : List (List By
         · exact h2 e he dd hdd
       · simp only [List.map_cons, List.flatMap_cons, hvd, zeroFill_exact, h3, v1Stream_cons, hal,
           if_true, hfbp, zeroFill_none, List.append_assoc]
-      · intro r hr es
+      · intro r hr hnp es
         simp only [List.mem_cons] at hr
         rcases hr with rfl | rfl | hr
         · simp [hlk]
-        · simp [lookup_pad_none t _ hpn]
-        · exact h4 r hr es
+        · simp [isPadRec, padMark] at hnp
+        · exact h4 r hr hnp es
       · simp only [List.map_cons, v1Entries, hcond, if_true]
         rw [hpc, filesTops_fileEntry, filesTops_padEntry, h5]; rfl
       · intro x hx
         simp only [List.mem_cons] at hx
         rcases hx with rfl | hx
-        · exact Or.inl ⟨(p, d), by simp, by simp [hpc]⟩
-        · rcases h6 x hx with ⟨y, hy, e⟩ | h
-          · exact Or.inl ⟨y, by simp [hy], e⟩
-          · exact Or.inr h
+        · exact ⟨(p, d), by simp, by simp [hpc]⟩
+        · obtain ⟨y, hy, e⟩ := h6 x hx
+          exact ⟨y, by simp [hy], e⟩
     · refine ⟨(p, d.length, none) :: recs, c :: tops, ?_, ?_, ?_, ?_, ?_, ?_⟩
       · simp only [List.map_cons, v1Entries, hcond]
         simp only [Bool.false_eq_true, if_false, v1Items, hitem, h1]
@@ -183,21 +177,20 @@ theorem v1_list_core (t : Node) (align : Bool) (pl : Nat) (files : List (List By
             simp [hcond, zeros]
         simp only [List.map_cons, List.flatMap_cons, hvd, zeroFill_exact, h3, v1Stream_cons, hz,
           List.append_nil]
-      · intro r hr es
+      · intro r hr hnp es
         simp only [List.mem_cons] at hr
         rcases hr with rfl | hr
         · simp [hlk]
-        · exact h4 r hr es
+        · exact h4 r hr hnp es
       · simp only [List.map_cons, v1Entries, hcond]
         simp only [Bool.false_eq_true, if_false]
         rw [hpc, filesTops_fileEntry, h5]; rfl
       · intro x hx
         simp only [List.mem_cons] at hx
         rcases hx with rfl | hx
-        · exact Or.inl ⟨(p, d), by simp, by simp [hpc]⟩
-        · rcases h6 x hx with ⟨y, hy, e⟩ | h
-          · exact Or.inl ⟨y, by simp [hy], e⟩
-          · exact Or.inr h
+        · exact ⟨(p, d), by simp, by simp [hpc]⟩
+        · obtain ⟨y, hy, e⟩ := h6 x hx
+          exact ⟨y, by simp [hy], e⟩
 
 /-! ### the whole run on a v1 metafile -/
 
@@ -246,7 +239,7 @@ theorem recheck_v1_general (H1 H : Bytes → Bytes) (B hs : Nat) (hhs : 0 < hs)
     (hscope : NotLonger (recs.map fun x => (x.2.1, v1Disk t x)))
     (hpieces : pieces = ((chunks pl ((recs.map fun x => (x.2.1, v1Disk t x)).flatMap
       zeroFill)).map H1).flatten)
-    (hnodir : ∀ x ∈ recs, ∀ es, lookup t x.1 ≠ some (.dir es))
+    (hnodir : ∀ x ∈ recs, isPadRec x = false → ∀ es, lookup t x.1 ≠ some (.dir es))
     (arg : ContentArg) (harg : arg.Resolves info name t) :
     ∃ vs, Impl.recheck H1 H B hs b arg t
         = .ok (vs, ((recs.map fun x => (x.2.1, v1Disk t x)).flatMap zeroFill).length,
@@ -270,7 +263,9 @@ theorem recheck_v1_general (H1 H : Bytes → Bytes) (B hs : Nat) (hhs : 0 < hs)
   have hnd : NoDirAtFile r t := by
     intro recs' hr'
     rw [hdesc] at hr'; cases hr'
-    exact fun x hx _ => hnodir x hx
+    intro x hx hnp
+    apply hnodir x hx
+    simpa [isPad, hio, hv2] using hnp
   have hrun := recheckMeta_of_plan H1 H B hs hhs r t _ arg.argName
     (some (arg.place name t)) hplan (by simpa [Plan.InScope] using hscope)
     (by rw [hnm, hio]; exact hroot) hnd hne
@@ -305,11 +300,8 @@ theorem recheck_created_v1_dir (o : CreateOpts) (align : Bool) (H1 H : Bytes →
     (enum : List (List (Bytes × Bytes)) → List (List (Bytes × Bytes)))
     (henum : ∀ l, (enum l).Perm l) (pre : Bytes) (es : List (Bytes × Node))
     (hwn : WellNamed (.dir es)) (hplain : PlainNamed (.dir es)) (hpl : 0 < o.pieceLength)
-    (hpad : align = true → child (.dir es) sPad = none)
     (r : BVal) (b : Bytes) (h : createV1 o align H1 enum pre (.dir es) = some (r, b))
-    (arg : ContentArg) (harg : ArgOK arg o.name)
-    (hinner : arg.kind = .root → align = true →
-      ∀ inner, child (.dir es) o.name = some inner → child inner sPad = none) :
+    (arg : ContentArg) (harg : ArgOK arg o.name) :
     ∃ vs, Impl.recheck H1 H B hs b arg (.dir es)
         = .ok (vs, (v1Stream align o.pieceLength ((sortedFiles pre (.dir es)).map (·.2))).length,
             (v1Stream align o.pieceLength ((sortedFiles pre (.dir es)).map (·.2))).length) ∧
@@ -352,7 +344,7 @@ theorem recheck_created_v1_dir (o : CreateOpts) (align : Bool) (H1 H : Bytes →
   have hdatas : files.map (·.2) = (sortedFiles pre (.dir es)).map (·.2) := by
     simp [files, List.map_map, Function.comp_def]
   obtain ⟨recs, tops, h1, h2, h3, h4, h5, h6⟩ :=
-    v1_list_core (.dir es) align o.pieceLength files hfa hne hpn hpad
+    v1_list_core (.dir es) align o.pieceLength files hfa hne hpn
   rw [← hlisted] at h1 h5
   rw [hdatas] at h3
   -- what the checker reads
@@ -367,19 +359,18 @@ theorem recheck_created_v1_dir (o : CreateOpts) (align : Bool) (H1 H : Bytes →
       Option.isSome_none, hlen, hfiles, h1]
   have hres : arg.Resolves info o.name (.dir es) := by
     apply resolves_of_argOK arg info o.name _ harg
-    intro hk'
+    intro _
     apply descends_false info o.name es tops
     · simp only [topsOf, hfiles, h5, bind, Except.bind]
     · intro inner hin x hx hsome
-      rcases h6 x hx with ⟨y, hy, rfl⟩ | ⟨hal, rfl⟩
-      · have hfy := hfa y hy
-        have hny := hne y hy
-        cases hy1 : y.1 with
-        | nil => exact absurd hy1 hny
-        | cons c cs =>
-          rw [hy1] at hfy
-          simpa using fileAt_head_child es c cs y.2 hfy
-      · rw [hinner hk' hal inner hin] at hsome; cases hsome
+      obtain ⟨y, hy, rfl⟩ := h6 x hx
+      have hfy := hfa y hy
+      have hny := hne y hy
+      cases hy1 : y.1 with
+      | nil => exact absurd hy1 hny
+      | cons c cs =>
+        rw [hy1] at hfy
+        simpa using fileAt_head_child es c cs y.2 hfy
   have hpieces : (chunks o.pieceLength (if align = true
         then Spec.alignedStream o.pieceLength ((sortedFiles pre (.dir es)).map (·.2))
         else ((sortedFiles pre (.dir es)).map (·.2)).flatten)).map H1
@@ -577,7 +568,8 @@ theorem createV1_dir_value (o : CreateOpts) (align : Bool) (H1 : Bytes → Bytes
   rw [e1, sortDict_unique _ T hT hTs]
   rfl
 
-/-! ### two concrete trees showing that the `.pad` side conditions are needed -/
+/-! ### two concrete trees that really contain `.pad` entries (they were rechecked wrongly before
+  the repairs d2b4fef / 65351cc of `recheck.py`; no side condition about `.pad` is needed now) -/
 namespace Ex
 
 /-- minimal options: piece length 4, root name `r` -/
